@@ -126,8 +126,19 @@ def _verify_cases_ok(draw):
 
 
 @st.composite
-def _verify_cases(draw, kinds=("root", "root-ok", "delegation", "delegation-ok", "delegation-ok", "malformed", "malformed", "numeric-spelling", "raw-utf8")):
+def _verify_cases(draw, kinds=("root", "root-ok", "delegation", "delegation-ok", "delegation-ok", "malformed", "malformed", "numeric-spelling", "raw-utf8", "impossible-threshold")):
     kind = draw(st.sampled_from(list(kinds)))
+    if kind == "impossible-threshold":
+        # a delegation nobody can satisfy (threshold above the number of listed keys), the file signed by every listed key
+        seeds = draw(keys.seed_lists(1, 3))
+        pubs = [keys.pub_hex(x) for x in seeds]
+        utype = draw(st.sampled_from(["key_mgr", "pkg_mgr"]))
+        T = GM.wrap(GM.signed_part("root", {utype: {"pubkeys": pubs, "threshold": len(pubs) + draw(st.integers(1, 3))},
+                                            "root": {"pubkeys": pubs[:1], "threshold": 1}}, version=3))
+        payload = GM.signed_part("key_mgr", {"pkg_mgr": {"pubkeys": pubs[:1], "threshold": 1}}, version=1) if utype == "key_mgr" \
+            else dict(draw(G.package_record), type=utype)
+        U = GM.sign_envelope(GM.wrap(payload), seeds, False)
+        return {"kind": kind, "T": T, "U": U, "flaw": "threshold>keys"}
     if kind == "raw-utf8":
         # files produced by another tool: raw UTF-8 instead of \uXXXX escapes, some of them bigger than any read buffer, with
         # 2-, 3- and 4-byte characters at every offset modulo the usual block sizes
